@@ -2,6 +2,7 @@ package simkit
 
 import (
 	"bytes"
+	"fmt"
 	"sort"
 
 	"github.com/pingcap/kvproto/pkg/kvrpcpb"
@@ -36,7 +37,7 @@ func (cl *Cluster) SplitAt(key []byte) bool {
 	if len(key) == 0 {
 		return false
 	}
-	region, leader, _, _ := cl.C.GetRegionByKey(key)
+	region, leader, _, _ := cl.C.GetRegionByKey(mocktikv.NewMvccKey(key))
 	if region == nil {
 		return false
 	}
@@ -63,7 +64,7 @@ func (cl *Cluster) SplitAt(key []byte) bool {
 
 // MergeAt merges the region containing key with its right neighbour.
 func (cl *Cluster) MergeAt(key []byte) bool {
-	region, _, _, _ := cl.C.GetRegionByKey(key)
+	region, _, _, _ := cl.C.GetRegionByKey(mocktikv.NewMvccKey(key))
 	if region == nil || len(region.EndKey) == 0 {
 		return false
 	}
@@ -82,7 +83,7 @@ func (cl *Cluster) MergeAt(key []byte) bool {
 
 // MoveLeaderOf transfers the leader of the region containing key to its next peer.
 func (cl *Cluster) MoveLeaderOf(key []byte) bool {
-	region, leader, _, _ := cl.C.GetRegionByKey(key)
+	region, leader, _, _ := cl.C.GetRegionByKey(mocktikv.NewMvccKey(key))
 	if region == nil || len(region.Peers) < 2 {
 		return false
 	}
@@ -176,4 +177,15 @@ func (kt *KeyTruth) ValueAt(ts uint64) ([]byte, bool) {
 		}
 	}
 	return nil, false
+}
+
+// Describe renders the current region layout.
+func (cl *Cluster) Describe() string {
+	rs := cl.C.GetAllRegions()
+	sort.Slice(rs, func(i, j int) bool { return bytes.Compare(rs[i].Meta.StartKey, rs[j].Meta.StartKey) < 0 })
+	out := ""
+	for _, r := range rs {
+		out += fmt.Sprintf("[r%d %q..%q v%d c%d] ", r.Meta.Id, mocktikv.MvccKey(r.Meta.StartKey).Raw(), mocktikv.MvccKey(r.Meta.EndKey).Raw(), r.Meta.RegionEpoch.GetVersion(), r.Meta.RegionEpoch.GetConfVer())
+	}
+	return out
 }
